@@ -30,6 +30,8 @@ Record pj_input := {
   pj_auth_first_is_string : bool;   (* template auth_events is a non-empty list whose head is a string *)
   pj_room_id : bytes;
   pj_user_id : bytes;
+  pj_origin : bytes;                (* input.UserID.Domain() *)
+  pj_server : bytes;                (* input.ServerName *)
   pj_sender_id : option bytes;      (* pseudo IDs: GetOrCreateSenderID; None = error *)
   pj_mapping_sign_ok : bool;
   pj_build_ok : bool;               (* SetContent, SetUnsigned and Build all succeed *)
@@ -100,3 +102,23 @@ Definition perform_join (i : pj_input) : pj_result :=
         | Some s => if negb (pj_mapping_sign_ok i) then PJError false true else continue s
         end
       else continue (pj_user_id i).
+
+(* the requests PerformJoin sends, in order, with what it puts into them: make_join for the
+   user, then send_join with an event that it forces to be a join of the user in the room *)
+Definition perform_join_requests (i : pj_input) : list bytes :=
+  if pj_user_nil i || pj_room_nil i || pj_keyring_nil i then []
+  else
+    let mk := entry [bs "make_join"; pj_origin i; pj_server i; pj_room_id i; pj_user_id i] in
+    let ver := match pj_resp_version i with
+               | [] => default_version (pj_auth_first_is_string i)
+               | v => v
+               end in
+    let pseudo := bytes_eqb (pj_resp_version i) v_pseudo_ids in
+    let sender := if pseudo then pj_sender_id i
+                  else Some (pj_user_id i) in
+    if pj_make_join_ok i && version_known ver && (negb pseudo || pj_mapping_sign_ok i) && pj_build_ok i then
+      match sender with
+      | Some s => [mk; entry [bs "send_join"; pj_origin i; pj_server i; m_room_member; pj_room_id i; s; s; s_join; ver]]
+      | None => [mk]
+      end
+    else [mk].
